@@ -46,3 +46,31 @@ impl MintAssets {
     #[verifier::external_body] pub fn insert(&mut self, key: &AssetName, value: &Int) -> (r: Result<Option<Int>, JsError>)
         ensures r is Ok ==> final(self).ins() == old(self).ins().push((*key, *value)) { unimplemented!() }
 }
+
+// ---- spending pointers: the input builder's ordered input map and its witness table
+use std::collections::BTreeMap;
+opaque_types!(TransactionInput, Value, VkeyReq, BootstrapReq);
+clone_eq!(TransactionInput);
+impl PartialEq for TransactionInput { #[verifier::external_body] fn eq(&self, o: &TransactionInput) -> bool { unimplemented!() } }
+impl Eq for TransactionInput {}
+impl PartialOrd for TransactionInput { #[verifier::external_body] fn partial_cmp(&self, o: &TransactionInput) -> Option<core::cmp::Ordering> { unimplemented!() } }
+impl Ord for TransactionInput { #[verifier::external_body] fn cmp(&self, o: &TransactionInput) -> core::cmp::Ordering { unimplemented!() } }
+pub type InEntry = (TxBuilderInput, Option<ScriptHash>);
+/// BTreeMap<TransactionInput, (TxBuilderInput, Option<ScriptHash>)> as its entries in ascending outpoint order (R-btree); `values()` yields the values in
+/// that order (std, ASSUMED).  Every value is stored under its own outpoint (push_input: unit tx_inputs) and outpoints are distinct: `wf`.
+pub struct InputsMap { pub entries: Vec<(TransactionInput, InEntry)> }
+impl InputsMap {
+    pub open spec fn vals(&self) -> Seq<InEntry> { self.entries@.map_values(|e: (TransactionInput, InEntry)| e.1) }
+    pub open spec fn wf(&self) -> bool {
+        (forall|i: int| 0 <= i < self.entries@.len() ==> (#[trigger] self.entries@[i]).1.0.input == self.entries@[i].0)
+          && (forall|i: int, j: int| 0 <= i < j < self.entries@.len() ==> self.entries@[i].0 != self.entries@[j].0)
+    }
+    #[verifier::external_body] pub fn values(&self) -> (r: core::slice::Iter<'_, InEntry>)
+        ensures r.remaining() == refs(self.vals()), r.obeys_prophetic_iter_laws(), r.decrease() is Some { unimplemented!() }
+}
+pub type WitEntries = Vec<(TransactionInput, Option<ScriptWitnessType>)>;
+impl vstd::std_specs::convert::FromSpecImpl<u64> for BigNum {
+    open spec fn obeys_from_spec() -> bool { true }
+    open spec fn from_spec(v: u64) -> BigNum { BigNum(v) }
+}
+impl From<u64> for BigNum { #[verifier::external_body] fn from(x: u64) -> (r: BigNum) { unimplemented!() } }
